@@ -170,6 +170,22 @@ func stubContextWithTimeout(parent context.Context, d time.Duration) (context.Co
 	return &verifCtx{Context: parent, timeout: d}, func() {}
 }
 
+// As with the real context.WithTimeout, a timeout that is not positive gives
+// a context that has already expired.
+func (c *verifCtx) Err() error {
+	if c.timeout <= 0 {
+		return context.DeadlineExceeded
+	}
+	return c.Context.Err()
+}
+
+func (c *verifCtx) Done() <-chan struct{} {
+	if c.timeout <= 0 {
+		return closedChan()
+	}
+	return c.Context.Done()
+}
+
 // ctxTimeoutOf reads the timeout a handler-side SetTimeout installed.
 func ctxTimeoutOf(ctx context.Context) (time.Duration, bool) {
 	if vc, ok := ctx.(*verifCtx); ok {
